@@ -90,13 +90,26 @@ theorem binomial_floor (n k : Nat) (h : k ≤ n) :
 
 /-- the code path `0 ≤ k ≤ n ≤ 170` from any table satisfying the invariant returns `C(n,k)` and
     keeps the invariant -/
-theorem binomial_spec (t : Tbl) (n k : Nat) (ht : TblInv t) (hk : k ≤ n) (hn : n ≤ 170) :
-    (binomial t (n : Int) (k : Int)).1 = .ok ((n.choose k : Nat) : Rat) ∧ TblInv (binomial t (n : Int) (k : Int)).2 := by
+theorem binomial_spec (t : Tbl) (n k : Nat) (ht : TblInv t) (hk : k ≤ n) :
+    (binomial t (n : Int) (k : Int)).1 = .ok ((n.choose k : Nat) : Rat) ∧ TblInv (binomial t (n : Int) (k : Int)).2 ∧
+      (binomial t (n : Int) (k : Int)).2 = t := by
+  have h1 : ¬ ((k : Int) < 0 ∨ (n : Int) < 0) := by omega
+  have h2 : ¬ ((n : Int) < (k : Int)) := by omega
+  unfold binomial
+  rw [if_neg h1, if_neg h2]
+  simp only [Int.toNat_natCast]
+  rw [binomProduct_eq_choose n k hk]
+  exact ⟨rfl, ht, trivial⟩
+
+/-- the factorial path used before `fix:` 2890841 returns the same value for `n ≤ 170` (value-neutral in exact arithmetic; in double
+    its three rounded factorials gave 132 wrong representable integers) -/
+theorem binomialFactorial_spec (t : Tbl) (n k : Nat) (ht : TblInv t) (hk : k ≤ n) (hn : n ≤ 170) :
+    (binomialFactorial t (n : Int) (k : Int)).1 = .ok ((n.choose k : Nat) : Rat) ∧ TblInv (binomialFactorial t (n : Int) (k : Int)).2 := by
   obtain ⟨m, hm, rfl⟩ := ht
   have h1 : ¬ ((k : Int) < 0 ∨ (n : Int) < 0) := by omega
   have h2 : ¬ ((n : Int) < (k : Int)) := by omega
   have h3 : ¬ ((n : Int) > 170) := by omega
-  unfold binomial
+  unfold binomialFactorial
   rw [if_neg h1, if_neg h2, if_neg h3]
   simp only [Int.toNat_natCast]
   unfold binomialSmall
@@ -107,16 +120,16 @@ theorem binomial_spec (t : Tbl) (n k : Nat) (ht : TblInv t) (hk : k ≤ n) (hn :
 
 /-- Pascal's rule and symmetry for the values the model returns (`n+1 ≤ 170`) -/
 theorem binomial_pascal (t₁ t₂ t₃ : Tbl) (n k : Nat) (h₁ : TblInv t₁) (h₂ : TblInv t₂) (h₃ : TblInv t₃)
-    (hk : k + 1 ≤ n) (hn : n + 1 ≤ 170) :
+    (hk : k + 1 ≤ n) :
     ∃ c c₁ c₂ : Rat, (binomial t₁ ((n + 1 : Nat) : Int) ((k + 1 : Nat) : Int)).1 = .ok c ∧
       (binomial t₂ (n : Int) (k : Int)).1 = .ok c₁ ∧ (binomial t₃ (n : Int) ((k + 1 : Nat) : Int)).1 = .ok c₂ ∧ c = c₁ + c₂ := by
-  refine ⟨_, _, _, (binomial_spec t₁ (n + 1) (k + 1) h₁ (by omega) hn).1, (binomial_spec t₂ n k h₂ (by omega) (by omega)).1,
-    (binomial_spec t₃ n (k + 1) h₃ hk (by omega)).1, ?_⟩
+  refine ⟨_, _, _, (binomial_spec t₁ (n + 1) (k + 1) h₁ (by omega)).1, (binomial_spec t₂ n k h₂ (by omega)).1,
+    (binomial_spec t₃ n (k + 1) h₃ hk).1, ?_⟩
   rw [Nat.choose_succ_succ]; push_cast; rfl
 
-theorem binomial_symm (t₁ t₂ : Tbl) (n k : Nat) (h₁ : TblInv t₁) (h₂ : TblInv t₂) (hk : k ≤ n) (hn : n ≤ 170) :
+theorem binomial_symm (t₁ t₂ : Tbl) (n k : Nat) (h₁ : TblInv t₁) (h₂ : TblInv t₂) (hk : k ≤ n) :
     (binomial t₁ (n : Int) (k : Int)).1 = (binomial t₂ (n : Int) ((n - k : Nat) : Int)).1 := by
-  rw [(binomial_spec t₁ n k h₁ hk hn).1, (binomial_spec t₂ n (n - k) h₂ (by omega) hn).1, Nat.choose_symm hk]
+  rw [(binomial_spec t₁ n k h₁ hk).1, (binomial_spec t₂ n (n - k) h₂ (by omega)).1, Nat.choose_symm hk]
 
 /-- `n < k` → 0 -/
 theorem binomial_lt (t : Tbl) (n k : Int) (h0 : 0 ≤ n) (h : n < k) :
@@ -136,9 +149,8 @@ theorem binomial_large (t : Tbl) (n k : Nat) (hk : k ≤ n) (hn : 170 < n) :
     binomial t (n : Int) (k : Int) = (.ok ((n.choose k : Nat) : Rat), t) := by
   have h1 : ¬ ((k : Int) < 0 ∨ (n : Int) < 0) := by omega
   have h2 : ¬ ((n : Int) < (k : Int)) := by omega
-  have h3 : ((n : Int) > 170) := by omega
   unfold binomial
-  rw [if_neg h1, if_neg h2, if_pos h3]
+  rw [if_neg h1, if_neg h2]
   simp only [Int.toNat_natCast]
   rw [binomProduct_eq_choose n k hk]
 
@@ -191,10 +203,16 @@ theorem gammaP_add_gammaQ (E : Parts) (x a q : Rat) (h : gammaQ E x a = .ok q) :
 theorem gammaP_error (E : Parts) (x a : Rat) (e : Err) (h : gammaQ E x a = .error e) : gammaP E x a = .error e := by
   unfold gammaP; rw [h]; rfl
 
+theorem gammaTimesFraction_eq (g q : Rat) : gammaTimesFraction g q = g * q := by
+  unfold gammaTimesFraction
+  split_ifs with h
+  · rw [h, mul_zero]
+  · rfl
+
 /-- **upper_add_lower**: `Upper + Lower = Gamma` -/
 theorem upper_add_lower (T : Transc) (E : Parts) (x s g q : Rat) (hg : gamma T s = .ok g) (hq : gammaQ E x s = .ok q) :
     ∃ u l, upperGamma T E x s = .ok u ∧ lowerGamma T E x s = .ok l ∧ u + l = g := by
-  refine ⟨g * q, g * (1 - q), ?_, ?_, by ring⟩
+  refine ⟨gammaTimesFraction g q, gammaTimesFraction g (1 - q), ?_, ?_, by rw [gammaTimesFraction_eq, gammaTimesFraction_eq]; ring⟩
   · unfold upperGamma; rw [hg, hq]
   · have hp : gammaP E x s = .ok (1 - q) := by unfold gammaP; rw [hq]; rfl
     unfold lowerGamma; rw [hg, hp]
@@ -450,12 +468,6 @@ theorem invGamma_not_probability (T : Transc) (P : Rat → Rat → Except Err Ra
   · unfold invGammaQ; rw [if_pos hp]
 
 /-! ## Mirrors of the repairs proposed by the second audit (fixprop-C06-5, C06-6) -/
-
-theorem gammaTimesFraction_eq (g q : Rat) : gammaTimesFraction g q = g * q := by
-  unfold gammaTimesFraction
-  split_ifs with h
-  · rw [h, mul_zero]
-  · rfl
 
 theorem binomialAll_eq_choose (n k : Nat) (hk : k ≤ n) : binomialAll (n : Int) (k : Int) = .ok ((n.choose k : Nat) : Rat) := by
   unfold binomialAll
